@@ -669,6 +669,9 @@ sexp sexp_identifier_eq_op (sexp ctx, sexp self, sexp_sint_t n, sexp e1, sexp id
   sexp_assert_type(ctx, sexp_envp, SEXP_ENV, e2);
   cell1 = sexp_env_cell(ctx, e1, id1, 0);
   cell2 = sexp_env_cell(ctx, e2, id2, 0);
+  /* a cell made by a forward reference and not defined yet is still unbound */
+  if (cell1 && (sexp_cdr(cell1) == SEXP_UNDEF)) cell1 = NULL;
+  if (cell2 && (sexp_cdr(cell2) == SEXP_UNDEF)) cell2 = NULL;
   if (cell1 && (cell1 == cell2))
     return SEXP_TRUE;
   else if (!cell1 && !cell2 && (id1 == id2))
